@@ -293,7 +293,7 @@ def work(arg):
                                      observed_passes=log, divergence=what,
                                      how="stack = stacking.%s(handler=double); stack.transmit(Packet(packed=label), ha) in queue order; before each "
                                          "stack.serviceTxPkts() make double.send raise socket.error(errno) for the failing destinations" % kind))
-                if p.evaluations % 50021 == 1:
+                if nfail >= 2 and late_from < n and v is None and len(p.samples) < 2:
                     p.sample(dict(stack=kind, queue=qstr(queue, late_from), failing_per_pass=[list(s) for s in pat],
                                   passes=[(x["failing"], x["sent"]) for x in log]))
         # per-send failure family (two passes, every fail/succeed mask over the first n sends of each)
